@@ -4,7 +4,7 @@
    case = VL [ sender cfg (server pmd threshold wlimit utf8); receiver cfg (limit utf8); cap; window_before;
                VL [ VL [op; VL slices; key; dout] ... ]; wire; VL delivered [ VL [0; op; payload] ...];
                sender window after; receiver window after ] *)
-From Gws Require Import Lib.Base Lib.Val Spec.Rfc6455 Model.Header Model.Writer Model.Reader Model.Window Model.EndToEnd Corr.CheckC03.
+From Gws Require Import Lib.Base Lib.Val Spec.Rfc6455 Model.Header Model.Writer Model.Reader Model.Window Model.EndToEnd Model.Utf8 Corr.CheckC03.
 Local Open Scope N_scope.
 
 Definition mkwin (cap : nat) (d : list N) : window :=
@@ -16,7 +16,7 @@ Fixpoint send_ops (c : wcfg) (w : window) (ops : list val) : option (list N * wi
   | [] => Some ([], w, [])
   | o :: r =>
       let op := vn (vget 0 o) in let slices := map vb (vl (vget 1 o)) in let key := vb (vget 2 o) in let dout := vb (vget 3 o) in
-      match send_one (fun _ => true) (fun _ _ => dout ++ flate_tail4) c w op slices key with
+      match send_one Utf8.utf8_valid (fun _ _ => dout ++ flate_tail4) c w op slices key with
       | (Some fr, w', WOk) =>
           (* inflate table entry for the receiver: (dictionary, compressed ++ tail) -> payload *)
           let entry := VL [VB (sw_dict w); VB (dout ++ flate_tail9); VN 1; VB (concat slices)] in
@@ -38,7 +38,7 @@ Definition check_c01 (c : val) : bool :=
   let w0 := mkwin cap (vb (vget 3 c)) in
   match send_ops scfg w0 (vl (vget 4 c)) with
   | Some (bs, w, tbl) =>
-      let '(evs, o) := read_stream (fun _ => true) (fun d s _ => lookup_inflate tbl d s) window sw_dict wwrite_total
+      let '(evs, o) := read_stream Utf8.utf8_valid (fun d s _ => lookup_inflate tbl d s) window sw_dict wwrite_total
                                    (S (length bs)) rcfg0 (r_init window w0) bs in
       bytes_eqb bs (vb (vget 5 c)) && evs_eqb evs (vl (vget 6 c))
       && bytes_eqb (sw_dict w) (vb (vget 7 c))
